@@ -7,7 +7,8 @@
      Location   [first, last, strand \in {"+","-"}, defect \subseteq DefectNames]
      Feature    [key, locs]            locs = non-empty SET of locations (the code's frozenset)
      Annotation SET of features        (the code's set; equal features collapse)
-     AnnSeq     [ann, seq, start]      seq = sequence of symbol codes 0..3 (A,C,G,T)
+     AnnSeq     [ann, seq, start]      seq = sequence of nucleotide symbol codes 0..14
+                                       (A C G T | R Y W S M K H B V D N, see "nucleotide symbols")
 
    Every public call is one operator; `Apply(kind, S, op, a)` dispatches and is total on the
    call universe of the configurations:  [ann, seq, start, oc, out], oc \in {"ok","Rejected"}.
@@ -116,8 +117,56 @@ SliceASImpl(S, a, b) ==
       i1 == IF IsNone(b) THEN Len(S.seq) ELSE Val(b) - S.start
   IN AS(SliceAnnot(S.ann, a, b), SubSeq(S.seq, i0 + 1, i1), IF IsNone(a) THEN S.start ELSE Val(a))
 
+(* ------------------------------------------------------------------ nucleotide symbols   *)
+\* A symbol is its index in the IUPAC letter list  A C G T R Y W S M K H B V D N  (the driver
+\* maps codes <-> letters).  Codes 0..3 are the unambiguous alphabet, 0..14 the ambiguous one;
+\* a NucleotideSequence built from letters has the unambiguous alphabet iff all its symbols
+\* are in 0..3 (the constructor's default), so the alphabet is a function of the symbols.
+UnambSyms == 0..3
+AmbSyms   == 0..14
+\* IUPAC meaning of a code: the set of bases (0..3) it stands for
+BaseSet(x) ==
+  CASE x \in 0..3 -> {x}
+    [] x = 4  -> {0, 2}          \* R  purine        A/G
+    [] x = 5  -> {1, 3}          \* Y  pyrimidine    C/T
+    [] x = 6  -> {0, 3}          \* W  weak          A/T
+    [] x = 7  -> {1, 2}          \* S  strong        C/G
+    [] x = 8  -> {0, 1}          \* M  amino         A/C
+    [] x = 9  -> {2, 3}          \* K  keto          G/T
+    [] x = 10 -> {0, 1, 3}       \* H  not G
+    [] x = 11 -> {1, 2, 3}       \* B  not A
+    [] x = 12 -> {0, 1, 2}       \* V  not T
+    [] x = 13 -> {0, 2, 3}       \* D  not C
+    [] x = 14 -> {0, 1, 2, 3}    \* N  any
+CompBase(b) == 3 - b                                    \* A<->T, C<->G
+\* complement of a code = the code of the complemented base set (evaluated once, as a table)
+CompTab == [x \in AmbSyms |-> CHOOSE y \in AmbSyms : BaseSet(y) = {CompBase(b) : b \in BaseSet(x)}]
+Comp(x) == CompTab[x]
+\* the 15 codes are exactly the non-empty sets of bases, so Comp is total and well defined
+ASSUME {BaseSet(x) : x \in AmbSyms} = (SUBSET UnambSyms) \ {{}}
+ASSUME \A x, y \in AmbSyms : BaseSet(x) = BaseSet(y) => x = y
+ASSUME \A x \in AmbSyms : BaseSet(Comp(x)) = {CompBase(b) : b \in BaseSet(x)}
+ASSUME \A x \in AmbSyms : Comp(Comp(x)) = x /\ (x \in UnambSyms => Comp(x) = 3 - x)
+\* the documented table NucleotideSequence.compl_symbol_dict:
+\*   A-T C-G  M-K R-Y W-W S-S  V-B H-D  N-N
+ASSUME <<Comp(8), Comp(4), Comp(6), Comp(7), Comp(12), Comp(10), Comp(14)>> = <<9, 5, 6, 7, 11, 13, 14>>
+
+IsAmb(s)        == \E k \in DOMAIN s : s[k] > 3        \* needs the ambiguous alphabet
+Dom_Syms(s)     == \A k \in DOMAIN s : s[k] \in AmbSyms
+\* a written value must fit the alphabet of the target: Sequence.__setitem__ copies the codes of
+\* the value without looking at its alphabet, so ambiguous symbols may only be written into a
+\* sequence that (visibly) has the ambiguous alphabet
+Dom_Write(S, x)    == Dom_Syms(x) /\ (IsAmb(x) => IsAmb(S.seq))
+Dom_WriteSym(S, y) == y \in AmbSyms /\ (y > 3 => IsAmb(S.seq))
+
+\* values used as written data by the configurations (any value of the right length would do):
+\* unambiguous targets get a fixed unambiguous pattern, ambiguous targets a value that runs
+\* over all 15 codes as the target's own symbols do (n <= Len(S.seq))
+XSeq(n)       == SubSeq(<<1, 3, 0, 2, 1, 0, 3, 3>>, 1, n)
+XFor(S, n)    == IF IsAmb(S.seq) THEN [k \in 1..n |-> (S.seq[k] + 7) % 15] ELSE XSeq(n)
+NextSym(S, p) == LET y == S.seq[p - S.start + 1] IN IF IsAmb(S.seq) THEN (y + 4) % 15 ELSE (y + 1) % 4
+
 (* ------------------------------------------------------------------ feature index       *)
-Comp(x)       == 3 - x                                  \* A<->T, C<->G on codes 0..3
 RevSeq(s)     == [k \in 1..Len(s) |-> s[Len(s) + 1 - k]]
 RevCompSeq(s) == [k \in 1..Len(s) |-> Comp(s[Len(s) + 1 - k])]
 
@@ -149,7 +198,7 @@ GetFeature(S, f) ==
   [k \in DOMAIN P |-> IF StrandOf(f) = "+" THEN SymAt(S, P[k]) ELSE Comp(SymAt(S, P[k]))]
 
 \* ... and written: afterwards GetFeature returns x, every other base is untouched
-Dom_SetFeature(S, f, x) == Dom_FeatIndex(S, f) /\ SingleStrand(f) /\ Len(x) = FeatLen(f)
+Dom_SetFeature(S, f, x) == Dom_FeatIndex(S, f) /\ SingleStrand(f) /\ Len(x) = FeatLen(f) /\ Dom_Write(S, x)
 SetFeature(S, f, x) ==
   LET P == BioPos(f)
       IdxOf(p) == CHOOSE k \in DOMAIN P : P[k] = p
